@@ -185,6 +185,35 @@ def condition_form_scripts(tier, with_starts=False):
     return out
 
 
+def trailing_empty_scripts(tier):
+    """a branch or body that ENDS with an EMPTY compound statement, immediately followed by every kind of statement: the last
+    instruction of the branch is then a raw conditional jump with offset 3 (or a loop's back jump), not a statement -- the place
+    where a scan for `the jump over the else branch` looks (seeded change C03-m1 of round 14: JzOperation made a JumpOperation).
+    Outer construct x what precedes the empty one x the empty construct x what follows, all combinations."""
+    put = lambda n: ["call", "put", ["i", n]]
+    c = lambda n: ["b", "lt", ["l", "c"], ["i", n]]
+    empties = [lambda: ["if", c(3), [], []], lambda: ["while", c(3)], lambda: ["with", ["l", "i"], ["i", 1], ["i", 3], "up"], lambda: ["in", ["l", "x"], ["l", "lst"]]]
+    follows = [lambda: [["if", c(4), [put(5)], []]], lambda: [["if", c(4), [put(5)], [put(6)]]], lambda: [["while", c(4), put(5)]], lambda: [put(5)], lambda: [],
+               lambda: [["if", c(4), [], []]], lambda: [["if", c(4), [put(5)], []], put(7)]]
+    befores = [lambda: [], lambda: [put(2)], lambda: [["if", c(8), [put(9)], []]]]
+    hs = []
+    for e in empties:
+        for f in follows:
+            for b in befores:
+                inner = b() + [e()]
+                hs.append([["if", c(1), inner, []]] + f())                       # if without else
+                hs.append([["if", c(1), inner, [put(6)]]] + f())                 # then-branch of an if-else
+                hs.append([["if", c(1), [put(6)], inner]] + f())                 # else branch
+                hs.append([["while", c(1)] + inner] + f())                       # loop body
+                hs.append([["if", c(1), [["if", c(2), inner, []]], []]] + f())   # two levels
+    if tier == "quick":
+        hs = hs[::2] + hs[1::8]
+    out = []
+    for i in range(0, len(hs), 8):
+        out.append(script_of([["on", "h%d" % j, ["a"]] + b for j, b in enumerate(hs[i:i + 8])], kind="trailing-empty"))
+    return out
+
+
 def scale_scripts(tier):
     """beyond the small bounds: loop bodies made of the SHORTEST statements (`set b = 0` is 3 bytes: up to 84 of them fit the one-byte
     back jump, far more than the 20-34 `put` calls of long_body_scripts), and if / else parts just below and above 32 768 bytes (the
@@ -491,6 +520,7 @@ def cases(rng, tier):
         scripts += condition_form_scripts(tier)
         scripts += scale_scripts(tier)
         scripts += property_loop_scripts(tier)
+        scripts += trailing_empty_scripts(tier)
     else:
         scripts += skeleton_scripts(5, 1, "skel-k5-len1")
         scripts += skeleton_scripts(4, 1, "skel-k4-len01", empties=True)
@@ -502,6 +532,7 @@ def cases(rng, tier):
         scripts += condition_form_scripts(tier)
         scripts += scale_scripts(tier)
         scripts += property_loop_scripts(tier)
+        scripts += trailing_empty_scripts(tier)
     # corpus replays are single-script cases (core prepends them)
     cs, rejected = build_cases(scripts)
     cases.rejected = rejected
